@@ -1,6 +1,6 @@
 """C11 — Packets are parsed independently; generators and definitions do not interfere.
 
-Kernel E-hist + interleavings.  (i) every stream of <= 4 packets over a 9-packet palette (two
+Kernel E-hist + interleavings.  (i) every stream of <= 4 packets over an 11-packet palette (two
 recognised APIDs with different layouts, an unrecognised APID, a too-long and a too-short packet)
 under all 8 option combinations equals the concatenation of the per-packet solo results; (ii) every
 lattice-path interleaving of next() calls over 2 (and 3) generators sharing one definition gives
@@ -37,10 +37,12 @@ def the_doc():
         PType("E_T", "Enumerated", IntEnc(2), enum=((0, "OFF"), (1, "ON"), (2, "SAFE"), (3, "FAULT"))),
         PType("U6", "Integer", IntEnc(6)), PType("S16_T", "Integer", IntEnc(16, "signed")),
         PType("U8", "Integer", IntEnc(8)),
+        # a float-encoded enumeration: the raw values +0.0 and -0.0 carry the same label and are different raw values
+        PType("EF_T", "Enumerated", FloatEnc(32), enum=((0.0, "ZERO"), (1.0, "ONE"))),
     )
     prs = header_params() + (
         Param("A_LEN", "U3"), Param("A_PAD", "U5"), Param("A_BLOB", "BLOB_T"), Param("A_CAL", "CAL_T"), Param("A_STR", "STR_T"),
-        Param("B_F", "F32_T"), Param("B_E", "E_T"), Param("B_P", "U6"), Param("B_S", "S16_T"), Param("S_BYTE", "U8"),
+        Param("B_F", "F32_T"), Param("B_E", "E_T"), Param("B_P", "U6"), Param("B_S", "S16_T"), Param("S_BYTE", "U8"), Param("Z_E", "EF_T"),
     )
     conts = (
         Container("CCSDSPacket", header_entries(), abstract=True),
@@ -48,6 +50,7 @@ def the_doc():
                   criteria=(Cmp("PKT_APID", "==", "1"), Cmp("TYPE", "==", "0"))),
         Container("B", (("p", "B_F"), ("p", "B_E"), ("p", "B_P"), ("p", "B_S")), base="CCSDSPacket", criteria=(Cmp("PKT_APID", "==", "2"),)),
         Container("S", (("p", "S_BYTE"),), base="CCSDSPacket", criteria=(Cmp("PKT_APID", "==", "4"),)),
+        Container("Z", (("p", "Z_E"),), base="CCSDSPacket", criteria=(Cmp("PKT_APID", "==", "5"),)),
         # stand-alone container: reachable only when a call names it as its root (root_container_name=...)
         Container("RAWDUMP", (("p", "S_BYTE"), ("p", "A_CAL"))),
         # an abstract container without entries and without children: as a per-call root, every packet is unrecognised before any field is read
@@ -70,7 +73,9 @@ def palette_packets():
     # segments of a group (APID 4, the one-byte S layout): ordinary packets unless combine_segmented_packets is set
     seg_first = framing.mk_packet(b"\x71", apid=4, seqflags=1, seqcount=40)
     seg_last = framing.mk_packet(b"\x72", apid=4, seqflags=2, seqcount=41)
-    return [a_clean, b_clean, unrec, a_long, a_short, unrec_same_apid, a_raising, seg_first, seg_last]
+    z_pos = framing.mk_packet(bytes.fromhex("00000000"), apid=5, seqcount=50)
+    z_neg = framing.mk_packet(bytes.fromhex("80000000"), apid=5, seqcount=51)
+    return [a_clean, b_clean, unrec, a_long, a_short, unrec_same_apid, a_raising, seg_first, seg_last, z_pos, z_neg]
 
 
 def obs_item(p):
@@ -401,6 +406,54 @@ def _task_interleave(task):
     return t
 
 
+def _task_threads(task):
+    """Kernel E-thread: ONE definition decoding two packets on two real threads at the same time, under every interleaving of their packet
+    accesses with at most `bound` preemptions: each decode gives what it gives alone, and the definition is unchanged."""
+    from mc.threadexplore import explore, yielding_packet_class
+    YP = yielding_packet_class()
+    t = Tally()
+    doc = the_doc()
+    defn = load_doc(doc)
+    before = canon_definition(defn)
+    pal = palette_packets()
+
+    def decode(pb, point=None):
+        pkt = YP(raw_data=pb)
+        if point is not None:
+            pkt.__dict__["_pt"] = point
+        with observed_warnings():
+            try:
+                out = defn.parse_ccsds_packet(pkt)
+                return ("packet", tuple(map(tuple, items_of(out))), out.raw_data.pos)
+            except Exception as e:  # noqa: BLE001
+                pd = getattr(e, "partial_data", None)
+                return ("raised", exc_names(e)[0], tuple(map(tuple, items_of(pd))) if pd is not None else None)
+    solo = [decode(pb) for pb in pal]
+    with case_alarm(1500):
+        for (i, j) in task["pairs"]:
+            want = (("ok", solo[i]), ("ok", solo[j]))
+
+            def check(results, choices):
+                t.evals += 1
+                t.traces += 1
+                t.transitions += len(choices)
+                if tuple(results) != want:
+                    bad = 0 if results[0] != want[0] else 1
+                    t.violation({"kind": "concurrent-decodes-interfere", "thread": bad},
+                                {"threads": True, "pair": [i, j], "schedule": list(choices), "bound": task["bound"]},
+                                expected=str(want[bad])[:300], observed=str(results[bad])[:300],
+                                note="two threads decoding different packets with one definition: a result differs from the decode alone")
+            st = explore(lambda: [lambda point, pb=pal[i]: decode(pb, point), lambda point, pb=pal[j]: decode(pb, point)], check, bound=task["bound"], max_execs=50000)
+            t.states += st["executions"]
+            t.outcomes["threads"] += st["executions"]
+            if st["capped"]:
+                t.caps.append("thread interleavings capped at 50000 for one pair")
+            t.nontrivial += 1
+    if canon_definition(defn) != before:
+        t.violation({"kind": "definition-modified"}, {"where": "threads"}, note="definition changed")
+    return t
+
+
 SIBLING_LITERALS = [1, 1.0, True, "1", "1.0", "True", "01", 2]
 SIBLING_MODES = [b"1", b"1.0", b"True", b"01", b"2", b"2.0"]
 
@@ -463,6 +516,11 @@ def run(ctx):
     itasks += [{"combos": [c], "max_items": 2 if ctx.quick else 3} for c in triples]
     t2 = fan_out(_task_interleave, itasks, jobs=ctx.jobs, seed=ctx.seed)
     tally.merge(t2)
+    npal = len(palette_packets())
+    tpairs = [(i, j) for i in range(npal) for j in range(npal)]
+    core = [(i, j) for i in (0, 1, 3, 9, 10) for j in (0, 1, 3, 9, 10) if i < j]
+    tally.merge(fan_out(_task_threads, [{"pairs": ch, "bound": 1 if ctx.quick else 2} for ch in chunked(tpairs, 16 if ctx.quick else 64)]
+                        + [{"pairs": [pr], "bound": 2 if ctx.quick else 3} for pr in core], jobs=ctx.jobs, seed=ctx.seed))
     # one worker process per order, so that each order is the first use of the library in its process
     orders = [p for p in itertools.permutations(range(len(SIBLING_LITERALS)), 3)][:: (4 if ctx.quick else 1)] + [tuple(range(len(SIBLING_LITERALS))), tuple(reversed(range(len(SIBLING_LITERALS))))]
     tally.merge(fan_out(_task_siblings, [{"order": o} for o in orders], jobs=ctx.jobs, seed=ctx.seed))
@@ -471,13 +529,14 @@ def run(ctx):
         "transitions": tally.transitions,
         "traces_validated_against_impl": tally.traces,
         "exhaustive": True,
-        "bound": (f"(i) every stream of <= 4 packets over a 9-packet palette ({len(seqs)} streams) x all 8 combinations of parse_bad_pkts / "
+        "bound": (f"(i) every stream of <= 4 packets over an 11-packet palette ({len(seqs)} streams) x all 8 combinations of parse_bad_pkts / "
                   "yield_unrecognized_packet_errors / ccsds_headers_only (+ 2 with root_container_name naming a stand-alone container for that call, + 2 headers-only runs with combine_segmented_packets; "
                   "every stream of <= 3 packets over FIRST/LAST segments whose counts follow on or differ by 1025 / 4097 / wrap, with combine_segmented_packets) "
                   "vs. per-packet solo results on fresh definitions; (ii) k=2: every ordered pair of 7 generators "
                   "(two with combine_segmented_packets, one over a scripted socket, one with a per-call root container) x ALL lattice-path interleavings of their next() calls up to exhaustion, and one generator abandoned (closed, or dropped and collected) after every number of items while the other runs on; "
                   f"k=3: {len(triples)} triples with <= {2 if ctx.quick else 3} steps each, all interleavings; (iii) definition canon + written XML unchanged; "
-                  "(iv) package footprint unchanged, and the caller's warnings filter list back in force once all generators of an interleaving have finished (the caller records every warning, or - every other combination - turns every warning into an error); (v) sibling definitions built with the public constructors that differ only in how the discriminating literal was handed over "
+                  "(iv) package footprint unchanged, and the caller's warnings filter list back in force once all generators of an interleaving have finished (the caller records every warning, or - every other combination - turns every warning into an error); (vi) kernel E-thread: one definition decoding two packets on two real threads at once, every ordered pair of palette packets, every interleaving of their packet accesses with at most "
+                  f"{1 if ctx.quick else 2} preemption(s), and with one more on the 10 pairs of packets that decode user data; (v) sibling definitions built with the public constructors that differ only in how the discriminating literal was handed over "
                   f"(1, 1.0, True, '1', '1.0', 'True', '01', 2), generators advanced in lock step over one stream: {len(orders)} orders of 3 (and all 8 in both directions)"),
         "rule": ("one evaluation = one stream run or one complete interleaving; states = distinct (generator combination, position vector) pairs; "
                  "transitions = next() calls; non-trivial = streams with >= 2 distinct packets and generator combinations"),
@@ -492,6 +551,9 @@ def replay(case):
         for v in t.violations:
             if v["case"].get("opts") == case.get("opts"):
                 return v
+        return t.violations[0] if t.violations else None
+    if case.get("threads"):
+        t = _task_threads({"pairs": [tuple(case["pair"])], "bound": case.get("bound", 1)})
         return t.violations[0] if t.violations else None
     if case.get("siblings"):
         t = _task_siblings({"order": tuple(case["order"])})
